@@ -239,7 +239,8 @@ def make_result(shape, received):
 
 def leaf(leafspec, args, kwargs):
     rshape = leafspec
-    seen = (tuple(describe(a, True) for a in args), tuple(sorted((k, describe(v, True)) for k, v in kwargs.items())))
+    # keyword arguments arrive in the order the caller wrote them (a **kwargs dict is ordered): no sorting here
+    seen = (tuple(describe(a, True) for a in args), tuple((k, describe(v, True)) for k, v in kwargs.items()))
     LOG.append(("leaf", seen))
     return ("leafret", make_result(rshape, None))
 
@@ -307,7 +308,7 @@ class PeerK(_rpyc.Service):
 def run_kwcall(remote, depth, ashape, rshape, mode):
     a = ARG_SHAPES[ashape]()
     k = ARG_SHAPES[ashape]()
-    args, kwargs = {"pos": ((a,), {}), "kw": ((), {"key": k}), "both": ((a,), {"key": k, "other": 1})}[mode]
+    args, kwargs = {"pos": ((a,), {}), "kw": ((), {"key": k}), "both": ((a,), {"zulu": k, "other": 1, "alpha": 2})}[mode]
     del LOG[:]
 
     def local_call(d, cb, rs, *ar, **kw):
